@@ -24,7 +24,7 @@ func checkC20(c *vkit.Ctx) {
 		return
 	}
 	lab := NewLab(p, "")
-	n := c.N(500, 8000)
+	n := c.N(2000, 30000)
 	for i := 0; i < n; i++ {
 		if !c.Mine(i) {
 			continue
